@@ -139,8 +139,13 @@ def history(rng, inst, n):
     return steps
 
 
-def render(gen, inst, steps):
-    ops = cs.handshake(gen, inst) + ["view"]
+def render(gen, inst, steps, early=False):
+    hs = cs.handshake(gen, inst)
+    if early:
+        # an application (a UI task) looks at the objects while the handshake is still waiting for its last answer
+        ops = hs[:-1] + ["view"] + hs[-1:] + ["view"]
+    else:
+        ops = hs + ["view"]
     marks = []
     for st in steps:
         k = st[0]
@@ -212,7 +217,7 @@ def run(ctx, deep=False):
         "masks, one whole-degree limit pair, sensors present/absent) and abstract histories (AC status over power on/off x the five modes x the seven "
         "common fan speeds x flags x whole-degree set-points x temperatures x error codes, zone status over off/on/turbo x control method x damper x "
         "set-point x sensor x battery x spill, timers, error texts, versions, and calls with common arguments) rendered for each generation from the "
-        "vendor layouts and fed to the real AirTouch4 and AirTouch5 objects; after every frame the two public views are compared attribute by "
+        "vendor layouts and fed to the real AirTouch4 and AirTouch5 objects (in half of the runs the application also looks at the objects while the handshake is waiting for its last answer); after every frame the two public views are compared attribute by "
         "attribute (skipped: model, console name, set-point resolution, supported power controls), every call must be accepted or refused by both "
         "alike except SET_TO_AWAY / SET_TO_SLEEP (documented), and the two frames of an accepted call are read by their own vendor readers and must "
         "mean the same (target entity, power, mode, fan speed, set-point / damper value).")
@@ -230,25 +235,26 @@ def run(ctx, deep=False):
         runs = {}
         logging.disable(logging.CRITICAL)
         for gen in (4, 5):
-            ops, marks = render(gen, inst, steps)
+            early = i % 2 == 1
+            ops, marks = render(gen, inst, steps, early)
             api = apiharness.Api(gen)
             with warnings.catch_warnings():
                 warnings.simplefilter("ignore")
                 out = api.run(ops)
             runs[gen] = (ops, marks, out, api)
         (ops4, m4, out4, api4), (ops5, m5, out5, api5) = runs[4], runs[5]
-        hs = len(cs.handshake(4, inst))
+        hs = len(cs.handshake(4, inst)) + early
         ok4 = any("RESULT init True" in x for o in out4[:hs] for x in o)
-        ok5 = any("RESULT init True" in x for o in out5[:len(cs.handshake(5, inst))] for x in o)
+        ok5 = any("RESULT init True" in x for o in out5[:len(cs.handshake(5, inst)) + early] for x in o)
         if not (ok4 and ok5):
             ctx.tie_broken("C19:console-script", "the scripted consoles no longer initialise both objects (AT4 %s, AT5 %s) for %s" % (ok4, ok5, inst))
             continue
         # views: position of each `view` op
         v4 = [x for o in out4 for x in o if x.startswith("VIEW")]
         v5 = [x for o in out5 for x in o if x.startswith("VIEW")]
-        labels = ["after the handshake"] + [repr(st)[:160] for st in steps if st[0] != "call"]
+        labels = (["during the handshake"] if early else []) + ["after the handshake"] + [repr(st)[:160] for st in steps if st[0] != "call"]
         for j, (a, b) in enumerate(zip(v4, v5)):
-            if j < 2:
+            if j < 2 + early:
                 continue                   # before the installation's own state has been reported in full by both consoles
             ctx.case(("view", i, j))
             d = diff(project(apiref.parse_view(a)), project(apiref.parse_view(b)))
